@@ -198,6 +198,7 @@ pub struct Env {
     pub out: Vec<Value>,
     pub waker: Arc<CountWaker>,
     pub seq: u64,
+    pub partial_sends: BTreeMap<i64, (Vec<u8>, usize, Vec<String>)>,
 }
 
 pub enum Driven<T> {
@@ -254,11 +255,32 @@ fn kind_of(s: &str) -> ErrorKind {
     }
 }
 
+/// TLC's Json module cannot read null (and empty objects are useless): drop such fields.
+pub fn sanitize(v: &mut Value) {
+    if let Value::Object(m) = v {
+        let keys: Vec<String> = m.iter().filter(|(_, x)| x.is_null() || x.as_object().map(|o| o.is_empty()).unwrap_or(false)).map(|(k, _)| k.clone()).collect();
+        for k in keys {
+            m.remove(&k);
+        }
+        for (_, x) in m.iter_mut() {
+            sanitize(x);
+        }
+    } else if let Value::Array(a) = v {
+        for x in a.iter_mut() {
+            if x.is_null() {
+                *x = Value::String("null".into());
+            }
+            sanitize(x);
+        }
+    }
+}
+
 impl Env {
     pub fn new(backend: Arc<dyn MultiPeerBackend>) -> Env {
-        Env { backend, conns: BTreeMap::new(), attaching: BTreeMap::new(), out: vec![], waker: CountWaker::new(), seq: 0 }
+        Env { backend, conns: BTreeMap::new(), attaching: BTreeMap::new(), out: vec![], waker: CountWaker::new(), seq: 0, partial_sends: BTreeMap::new() }
     }
     pub fn ev(&mut self, mut v: Value) {
+        sanitize(&mut v);
         self.seq += 1;
         v["i"] = json!(self.seq);
         self.out.push(v);
@@ -322,6 +344,9 @@ impl Env {
         if let Some(x) = op.get("extra").and_then(|v| v.as_str()) {
             b.extend(rc::unhex(x));
         }
+        if op.get("first").is_some() {
+            b.extend(rc::enc_msg(&frames_of(&op["first"])));
+        }
         let mut cuts: Vec<usize> = op.get("split").and_then(|v| v.as_array()).map(|a| a.iter().filter_map(|x| x.as_u64()).map(|x| x as usize).collect()).unwrap_or_default();
         cuts.retain(|k| *k > 0 && *k < b.len());
         cuts.sort();
@@ -359,6 +384,9 @@ impl Env {
                 let fut: BoxFut<'static, ZmqResult<PeerIdentity>> = Box::pin(zeromq::__verif::attach(self.backend.clone(), R(to_lib), W(from_lib)));
                 self.attaching.insert(c, Pending { fut, waker: CountWaker::new(), polls: 0 });
                 self.ev(json!({"ev":"attach_call","c":c,"ptype":op.get("ptype").cloned().unwrap_or(Value::Null),"ident":op.get("ident").cloned().unwrap_or(Value::Null)}));
+                if op.get("first").is_some() {
+                    self.ev(json!({"ev":"peer_wrote","c":c,"m":rc::mdesc(&frames_of(&op["first"])),"with_handshake":true}));
+                }
                 self.attach_drive(c).await;
             }
             "attach_wait" => {
@@ -380,6 +408,26 @@ impl Env {
                 let b = rc::enc_msg(&frames);
                 self.push_cut(c, &b, op.get("cuts"));
                 self.ev(json!({"ev":"peer_wrote","c":c,"m":rc::mdesc(&frames)}));
+            }
+            "pbegin" => {
+                // first part of a message (per-mille of its encoding); completed by "pfinish"
+                let frames = frames_of(&op["m"]);
+                let b = rc::enc_msg(&frames);
+                let pm = op.get("upto").and_then(|v| v.as_u64()).unwrap_or(500) as usize;
+                let cutp = (b.len() * pm / 1000).clamp(1, b.len().saturating_sub(1).max(1));
+                if let Some(k) = self.conns.get(&c) {
+                    k.to_lib.push(&b[..cutp.min(b.len())]);
+                }
+                self.ev(json!({"ev":"peer_part","c":c,"n":cutp}));
+                self.partial_sends.insert(c, (b, cutp, rc::mdesc(&frames)));
+            }
+            "pfinish" => {
+                if let Some((b, cutp, d)) = self.partial_sends.remove(&c) {
+                    if let Some(k) = self.conns.get(&c) {
+                        k.to_lib.push(&b[cutp.min(b.len())..]);
+                    }
+                    self.ev(json!({"ev":"peer_wrote","c":c,"m":d}));
+                }
             }
             "pbytes" => {
                 let b = hexs(&op["b"]);
@@ -533,9 +581,11 @@ pub async fn run_scenario(sc: &Value) -> Vec<Value> {
                 sim::settle().await;
                 env.scan();
                 let parts = env.partials();
-                env.ev(json!({"ev":"quiescent","pending":Value::Null,"partials":parts}));
+                env.ev(json!({"ev":"quiescent","pending":"none","partials":parts}));
                 None
             }
+            // the call these refer to has already completed: nothing to do
+            "recv_drop" | "recv_wait" | "call_drop" | "call_wait" | "call_poll" => None,
             _ => {
                 if !env.env_op(op).await {
                     env.ev(json!({"ev":"harness_error","what":format!("unknown or inapplicable op {}", name)}));
@@ -671,7 +721,7 @@ pub async fn run_scenario(sc: &Value) -> Vec<Value> {
     sim::settle().await;
     env.scan();
     let parts = env.partials();
-    env.ev(json!({"ev":"quiescent","pending":Value::Null,"partials":parts,"final":true}));
+    env.ev(json!({"ev":"quiescent","pending":"none","partials":parts,"final":true}));
     drop(sock);
     sim::settle().await;
     env.scan();
